@@ -619,6 +619,17 @@ def _add_bounded(self, fn, du, t, ops, only_first=False):
         for v in (va, vb):
             if v[0] == "cast" and v[1] in WIDE:
                 return "128-bit accumulator plus a zero/sign-extended machine-word value: 2^63 additions would be needed to overflow"
+    if du.fn.kind == "Closure":
+        # one field of the tuple accumulator of `fold((0, 0), |(count, sum), x| (count + 1, sum + x))`: a counter that starts at a
+        # constant and moves by one per item of an in-memory sequence
+        for x, other in ((a, vb), (b, va)):
+            if x.get("k") not in ("copy", "move"):
+                continue
+            pk = du.canon(place_key(x))
+            pr = [e for e in pk[1] if e != "*"]
+            k_ = const_int(strip_casts(other))
+            if pk[0] == 2 and len(pr) == 1 and pr[0][0] == "f" and k_ is not None and 0 <= k_ <= 1 and _fold_tuple_init_const(du.fn, pr[0][1]):
+                return "a field of a fold's tuple accumulator that starts at a constant and grows by at most one per item of an in-memory sequence: cannot wrap (%s)" % ("32-bit: fewer than 2^31 items, stated assumption" if ty in ("i32", "u32") else "64-bit or wider")
     if ty in ("i32", "u32"):
         # ASSUMPTION (stated in every evidence file that uses it): parser inputs are smaller than 2 GiB
         for x, other in ((a, vb), (b, va)):
@@ -642,6 +653,23 @@ def _add_bounded(self, fn, du, t, ops, only_first=False):
                 if _is_count(du, other):
                     return "64-bit counter accumulating in-memory byte/element counts (each at most isize::MAX, sum bounded by data actually read)"
     return None
+
+
+def _fold_tuple_init_const(cf, k):
+    """closure cf is the body of a fold / try_fold whose initial accumulator is a tuple with a constant in field k"""
+    from . import facts as _facts
+    F = _facts.CURRENT
+    if F is None:
+        return False
+    for g in F.fns.values():
+        for bid, t in g.calls():
+            if cf.def_ in t.get("fn_items", []) and (callee_name(t) or t.get("callee") or "").endswith(("::fold", "::try_fold")) and len(t["args"]) >= 2:
+                iv = du_of(g).val_operand(t["args"][1])
+                if iv[0] == "aggregate" and iv[1] == "tuple" and k < len(iv[3]) and const_int(strip_casts(iv[3][k])) is not None:
+                    return True
+                if iv[0] == "const" and isinstance(iv[1], dict) and isinstance((iv[1].get("fields") or {}).get(str(k)), int):
+                    return True
+    return False
 
 
 def _is_count(du, v, depth=0):
